@@ -191,6 +191,23 @@ func applyModel(set *model.Set, cfg world.Cfg, pool []*model.Pattern, op WOp) WO
 	} else {
 		pat = pool[op.Pat]
 	}
+	// configured limits: a pattern with more wildcards than WithMaxRouteParams allows, or a wildcard name longer than
+	// WithMaxRouteParamKeyBytes, is an invalid route for every operation that takes a pattern
+	if cfg.MaxParams > 0 || cfg.MaxKeyBytes > 0 {
+		n := 0
+		for _, tk := range pat.Toks {
+			if tk.Kind == model.TStatic {
+				continue
+			}
+			n++
+			if cfg.MaxKeyBytes > 0 && len(tk.Name) > cfg.MaxKeyBytes {
+				return WOut{Class: "invalid", Tag: -1}
+			}
+		}
+		if cfg.MaxParams > 0 && n > cfg.MaxParams {
+			return WOut{Class: "invalid", Tag: -1}
+		}
+	}
 	switch op.Kind {
 	case "handle", "handleroute":
 		r := world.ModelRoute(cfg, op.Method, pat, op.Tag, op.Opt)
